@@ -178,7 +178,7 @@ func checkC04(p *Program, r *Result) {
 				found := false
 				ast.Inspect(d.Body, func(n ast.Node) bool {
 					if as, ok := n.(*ast.AssignStmt); ok && len(as.Lhs) == 1 && len(as.Rhs) == 1 && strings.HasSuffix(types.ExprString(as.Lhs[0]), "."+p.roles().qField) {
-						if ce, ok := as.Rhs[0].(*ast.CallExpr); ok && g.isBuiltin(ce, "append") {
+						if ce, ok := as.Rhs[0].(*ast.CallExpr); ok && g.isBuiltin(ce, "append") && !ce.Ellipsis.IsValid() {
 							found = true
 						}
 					}
@@ -228,14 +228,18 @@ func checkC04(p *Program, r *Result) {
 				}
 			case *ast.AssignStmt:
 				if site.meth == "loadChunk" && len(x.Lhs) == 1 && len(x.Rhs) == 1 && strings.HasSuffix(types.ExprString(x.Lhs[0]), "."+p.roles().qField) {
-					if ce, ok := x.Rhs[0].(*ast.CallExpr); ok && g.isBuiltin(ce, "append") {
+					if ce, ok := x.Rhs[0].(*ast.CallExpr); ok && g.isBuiltin(ce, "append") && !ce.Ellipsis.IsValid() { // append(queue[:0], unread...) is the compaction, not a yield
 						targets = append(targets, x)
 					}
 				}
 			}
 			return true
 		})
+		rootDecl := methodDecl(g, site.typ, site.meth)
 		if len(targets) == 0 {
+			if windowTestsInRegion(p, r, g, fc, rootDecl, fname, ref, t) {
+				continue
+			}
 			r.undecided("C04.a", fname, "window predicate", p.pos(fd.Pos()), "no statement that yields a message found")
 			continue
 		}
@@ -290,6 +294,9 @@ func checkC04(p *Program, r *Result) {
 			flat(pushNegations(pc, false))
 			pos := p.pos(tg.Pos())
 			if len(kept) == 0 {
+				if windowTestsInRegion(p, r, g, fc, rootDecl, fname, ref, t) {
+					continue
+				}
 				r.violated("C04.a", fname, "window predicate", pos, "no condition on the path to the yield relates the message log time to the window bounds; the time window is not applied")
 				continue
 			}
@@ -364,7 +371,34 @@ func checkC04(p *Program, r *Result) {
 func checkTopicFilter(p *Program, r *Result, g *goLayouts, fc *formCtx, fd *ast.FuncDecl, fname string) {
 	want := "(len(it.topics)==0 || {it.topics[Channel.Topic]})"
 	found := false
-	ast.Inspect(fd.Body, func(n ast.Node) bool {
+	// the admission test may sit in an unexported helper (addChannel, ...)
+	region := []*ast.FuncDecl{fd}
+	seenD := map[*ast.FuncDecl]bool{fd: true}
+	frontier := []*ast.FuncDecl{fd}
+	for depth := 0; depth < 3 && len(frontier) > 0; depth++ {
+		var next []*ast.FuncDecl
+		for _, d := range frontier {
+			ast.Inspect(d.Body, func(n ast.Node) bool {
+				if ce, ok := n.(*ast.CallExpr); ok {
+					if fn := g.calleeOf(ce); fn != nil && !fn.Exported() {
+						if hd := g.decls[fn]; hd != nil && hd.Body != nil && !seenD[hd] {
+							seenD[hd] = true
+							next = append(next, hd)
+							region = append(region, hd)
+						}
+					}
+				}
+				return true
+			})
+		}
+		frontier = next
+	}
+	var body ast.Node = &ast.BlockStmt{}
+	bl := body.(*ast.BlockStmt)
+	for _, d := range region {
+		bl.List = append(bl.List, d.Body)
+	}
+	ast.Inspect(body, func(n ast.Node) bool {
 		iff, ok := n.(*ast.IfStmt)
 		if !ok {
 			return true
